@@ -839,3 +839,96 @@ func (x *Exec) copyBuiltin(st *State, c *ssa.CallCommon, args []Val) Val {
 	}
 	return Val{S: n, Sort: "Int", T: types.Typ[types.Int]}
 }
+
+// applyPure gives the value of a function value applied to symbolic arguments inside a contract (used by trusted
+// contracts that talk about a predicate parameter, e.g. strings.IndexFunc). Repository closures are executed
+// symbolically (they must be loop-free and side-effect free: obligations are not generated inside); external
+// functions must have a trusted pure contract and become an uninterpreted function with that contract as axiom.
+func (x *Exec) applyPure(env *Env, f Val, args []Val) Val {
+	fn := f.Fn
+	sig := fn.Signature
+	if sig.Results().Len() != 1 {
+		cfail("application of %s in a contract: exactly one result expected", fn.Name())
+	}
+	rt := sig.Results().At(0).Type()
+	rs := x.w.sortOf(rt)
+	if fn.Blocks == nil {
+		key := fn.String()
+		fc, ok := x.w.contracts[key]
+		if !ok || !fc.Trusted || !fc.Pure {
+			cfail("function value %s applied in a contract has neither a body nor a trusted pure contract", key)
+		}
+		x.used[key] = true
+		name := fmt.Sprintf("uf_%s_0", sanitize(key))
+		var sorts, as []string
+		for _, a := range args {
+			sorts = append(sorts, a.Sort)
+			as = append(as, a.S)
+		}
+		x.g.funcs[name] = fmt.Sprintf("(declare-fun %s (%s) %s)", name, strings.Join(sorts, " "), rs)
+		if _, done := x.g.axioms[name]; !done {
+			// quantified form of the trusted contract
+			qenv := &Env{x: x, w: x.w, pkg: x.pkg, vars: map[string]Val{}, bound: map[string]bool{}}
+			var binders, bs []string
+			for i := 0; i < sig.Params().Len(); i++ {
+				p := sig.Params().At(i)
+				bn := fmt.Sprintf("u_%s", sanitize(p.Name()))
+				srt := x.w.sortOf(p.Type())
+				qenv.vars[p.Name()] = Val{S: bn, Sort: srt, T: p.Type()}
+				qenv.bound[bn] = true
+				binders = append(binders, "("+bn+" "+srt+")")
+				bs = append(bs, bn)
+			}
+			res := Val{S: app(name, bs...), Sort: rs, T: rt}
+			qenv.vars["result"] = res
+			if n := sig.Results().At(0).Name(); n != "" {
+				qenv.vars[n] = res
+			}
+			var ens []string
+			for _, c := range fc.Ensures {
+				ens = append(ens, qenv.trB(c.E))
+			}
+			x.g.axioms[name] = fmt.Sprintf("(assert (forall (%s) (! %s :pattern (%s))))", strings.Join(binders, " "), sand(ens...), app(name, bs...))
+		}
+		return Val{S: app(name, as...), Sort: rs, T: rt}
+	}
+	if _, mine := x.w.pkgs[pkgPath(fn)]; !mine {
+		cfail("function value %s is outside the verified packages", fn.String())
+	}
+	if len(analyzeLoops(fn).Loops) > 0 {
+		cfail("function value %s applied in a contract contains loops", fn.String())
+	}
+	st := env.st
+	if st == nil {
+		cfail("function application in a pure context")
+	}
+	s2 := st.clone()
+	s2.pc = nil
+	nf := x.newFrame(fn, s2.top)
+	for i, p := range fn.Params {
+		if i < len(args) {
+			a := args[i]
+			a.T = p.Type()
+			nf.vals[p] = a
+			nf.params[p.Name()] = a
+		}
+	}
+	for i, fv := range fn.FreeVars {
+		if i < len(f.Bind) {
+			nf.vals[fv] = f.Bind[i]
+		}
+	}
+	s2.top = nf
+	x.pureMode++
+	rets := x.execFunc(s2, nf)
+	x.pureMode--
+	if len(rets) == 0 {
+		cfail("function value %s has no return path", fn.String())
+	}
+	// ite chain over the return paths; the last one is the default
+	out := rets[len(rets)-1].res[0].S
+	for i := len(rets) - 2; i >= 0; i-- {
+		out = site(sand(rets[i].st.pc...), rets[i].res[0].S, out)
+	}
+	return Val{S: out, Sort: rs, T: rt}
+}
